@@ -201,15 +201,25 @@ bool huge_free(void* p) {
     }
   return false;
 }
-// Safety net for non-terminating parses that do not pull on the stream: more than 1 GiB requested through operator
-// new (huge single requests excluded) within ONE evaluation of a <= 8 KiB input cannot be a terminating parse (a value
-// built from n input bytes needs O(n) objects; geometric container growth at most doubles that).
+// Non-terminating parses that do not pull on the stream (e.g. a loop that appends elements without consuming input)
+// show up as runaway allocation: more than RUNAWAY bytes requested through operator new (huge single requests
+// excluded) within ONE evaluation. A value built from an input of <= 8 KiB needs at most a few MiB (one object of a
+// few hundred bytes per input byte, geometric container growth at most doubles the total), so 128 MiB is far beyond
+// any terminating parse. When a guarded parse is running the evaluation is left through the escape hatch of do_parse
+// (class `hang`); otherwise the process exits with code 79.
+constexpr uint64_t RUNAWAY = 128ull << 20;
 uint64_t g_cum_alloc = 0;
 bool g_cum_armed = false;
 void* do_new(size_t n, size_t align, bool nothrow) {
   void* p;
-  if (g_cum_armed && n <= HUGE_ALLOC && (g_cum_alloc += n) > (1ull << 30)) {
-    static const char m[] = "VERIF-ALLOC-RUNAWAY: more than 1 GiB requested during one evaluation\n";
+  if (g_cum_armed && n <= HUGE_ALLOC && (g_cum_alloc += n) > RUNAWAY) {
+    g_cum_armed = false;
+    if (vs::g_escape_armed) {
+      vs::compute_spin_site();
+      snprintf(vs::g_escape_msg, sizeof vs::g_escape_msg, "more than %llu MiB requested through operator new", (unsigned long long)(RUNAWAY >> 20));
+      siglongjmp(vs::g_escape_jmp, 3);
+    }
+    static const char m[] = "VERIF-ALLOC-RUNAWAY: too much memory requested during one evaluation\n";
     (void)!write(2, m, sizeof m - 1);
     _exit(79);
   }
